@@ -5,6 +5,7 @@ CONSTANTS
   Epoch = 1
   InitNumber = 1
   InitSet = {1, 2, 3, 4}
+  InitAnn = {1, 2, 3, 4}
   InitSigner = 2
   MaxNumber = 1000
   UpgradeSets = {}
